@@ -606,6 +606,52 @@ func (r *rtRun) shutdown(rng *RNG, cfg rtConfig) {
 		r.hang = fmt.Sprintf("after shutdown: monitor finished=%v callback goroutine finished=%v (%s)", monFin, cbFin, r.obs())
 		return
 	}
+	// API calls issued after shutdown must fail (never panic, never report success, never block past their context)
+	for _, cl := range r.clients {
+		if len(r.clients) == 0 {
+			break
+		}
+		for _, kind := range []string{"register", "unregister", "unregister", "view"} {
+			r.nextCtx++
+			op := rtOp{Kind: kind, Ctx: r.nextCtx, CfgIdx: -1}
+			if kind == "register" {
+				r.nextHandle++
+				op.H = r.nextHandle
+			}
+			if kind == "unregister" {
+				if len(cl.unreg) == 0 {
+					continue
+				}
+				for h := range cl.unreg {
+					op.H = h
+				}
+			}
+			cl.op = op
+			if !r.doStep(fmt.Sprintf("begin %d %s %d", cl.id, op.label(r, cl), op.Ctx), false, func() { cl.mu.Lock(); cl.status = "ready"; cl.mu.Unlock() }) {
+				return
+			}
+			if !r.perform(rng, rtAction{kind: "cli", c: cl}, cfg) {
+				return
+			}
+			if cl.statusNow() == "running" {
+				if !r.perform(rng, rtAction{kind: "cancel", ctx: op.Ctx}, cfg) {
+					return
+				}
+			}
+			if cl.statusNow() != "returned" {
+				r.lateResults = append(r.lateResults, kind+" blocked past its context")
+				return
+			}
+			res := cl.result
+			if (kind == "register" && res != "regFail") || (kind == "unregister" && res != "unregFalse") || strings.HasPrefix(res, "panic") {
+				r.lateResults = append(r.lateResults, fmt.Sprintf("%s returned %s", kind, res))
+			}
+			if !r.perform(rng, rtAction{kind: "ack", c: cl}, cfg) {
+				return
+			}
+		}
+		break // one client is enough
+	}
 	// leak check: no goroutine with a vimeo/dials frame survives
 	quiesce(time.Second)
 	buf := make([]byte, 1<<18)
